@@ -456,6 +456,74 @@ def rule_o3(F):
     return r
 
 
+# how often each child of a loop construct is evaluated: "each" = once per iteration (inside the generated loop),
+# "once" = before the loop header
+MULT = {
+    L + "r#while": {"E0": ("expr", "each"), "B0": ("block", "each")},
+    L + "r#for": {"E0": ("expr", "once"), "B0": ("block", "each")},
+}
+
+
+def loop_regions(b, defs):
+    """Generated loops of a lowering method: (new_block site of the header, back-edge emit_jump site, region) where the header
+    label of a `new_block(L)` is jumped to again by an `emit_jump(L)` that is emitted later. The region is what is emitted
+    between the two, i.e. the code that runs once per iteration."""
+    nb = [(bi, t) for bi, t in mir.calls(b) if hir.last(mir.callee(t)) == "new_block" and len(t["args"]) > 1 and mir.is_place_op(t["args"][1])]
+    ej = [(bi, t) for bi, t in mir.calls(b) if hir.last(mir.callee(t)) == "emit_jump" and len(t["args"]) > 1 and mir.is_place_op(t["args"][1])]
+    out = []
+    for nbi, nt in nb:
+        lbl = mir.origin_key(b, defs, nt["args"][1][1])
+        fwd = mir.reachable_from(b, nbi)
+        for jbi, jt in ej:
+            if jbi == nbi or jbi not in fwd or mir.origin_key(b, defs, jt["args"][1][1]) != lbl:
+                continue
+            region = {x for x in fwd if x != nbi and jbi in mir.reachable_from(b, x)} | {jbi}
+            out.append((nbi, jbi, region))
+    return out
+
+
+def rule_o5(F):
+    r = RuleResult("C08.O5", "multiplicity: what a loop evaluates once is emitted before the generated loop header, what it evaluates per iteration inside the loop", floor=4)
+    seen_loops = 0
+    for b in F.bodies_in(["src/mir/lower.rs", "src/mir/lower/match_expr.rs"]):
+        if not b.mir or "Lowerer" not in b.path:
+            continue
+        if not any(hir.last(mir.callee(t)) == "new_block" for _, t in mir.calls(b)):
+            continue
+        defs = mir.Defs(b)
+        regs = loop_regions(b, defs)
+        if not regs:
+            continue
+        seen_loops += 1
+        spec = MULT.get(b.path)
+        if spec is None:
+            r.note("loop emitted by %s has no multiplicity table entry (not checked)" % b.path)
+            continue
+        dom = mir.dominators(b)
+        for sel, (callee, how) in sorted(spec.items()):
+            k = select_param(b, sel)
+            if k is None:
+                r.missing("%s parameter %s" % (hir.last(b.path), sel))
+                continue
+            ev = events(b, defs, callee, k)
+            key = "%s: %s(%s) %s" % (hir.last(b.path), callee, sel, how)
+            inside = [e for e in ev if any(e in reg for _, _, reg in regs)]
+            r.inst(key, {"fn": hir.last(b.path), "child": sel, "expected": how, "visits": len(ev), "inside_loop": len(inside)})
+            if not ev:
+                r.bad(b.path, key, relfile(b.file), b.line, "the %s child is never visited" % sel)
+            elif how == "each" and len(inside) != len(ev):
+                e = [x for x in ev if x not in inside][0]
+                r.bad(b.path, key, relfile(b.file), b.blocks[e]["term"]["line"],
+                      "this sub-expression must be evaluated on every iteration but is emitted outside the generated loop (between the header block and the back-edge jump): it runs once")
+            elif how == "once" and (inside or not all(any(e in dom[nbi] for e in ev) for nbi, _, _ in regs)):
+                e = (inside or ev)[0]
+                r.bad(b.path, key, relfile(b.file), b.blocks[e]["term"]["line"],
+                      "this sub-expression must be evaluated once, before the loop, but is emitted inside the generated loop (after the header block): its side effects happen once per iteration (plus one)")
+    if seen_loops < 2:
+        r.missing("the two loop emitters r#while / r#for (found %d methods with a generated loop)" % seen_loops)
+    return r
+
+
 def rules(ctx):
     F = ctx["F"]
-    return [rule_o1(F), rule_o2(F), rule_o3(F), rule_o4(F)]
+    return [rule_o1(F), rule_o2(F), rule_o3(F), rule_o4(F), rule_o5(F)]
